@@ -31,6 +31,13 @@ Sensitivity (quick tier, seed 1, one textual mutation at a time on a scratch cop
   * with_timeout: timedelta deadline mis-converted                     -> caught (C36.pending.with_timeout)
   * chain_future: drop `if b.done(): return`                           -> caught (C36.internal_error_logged: InvalidStateError in callback)
   * chain_future: drop only the `a.cancelled()` branch                  -> caught (C36.pending.* cancelled_input)
+  * chain_future.copy rewritten as try: a.result() / except asyncio.CancelledError: b.cancel() / except Exception:
+    b.set_exception(e) (a cancelled concurrent.futures source raises concurrent.futures.CancelledError, an ordinary
+    Exception)                                                         -> caught at every seed by the grid
+    (C36.chain.outcome, C36.with_timeout.outcome) since (a) cancellation is compared strictly (`snorm`: a target
+    holding a CancelledError *instance* is failed, not cancelled) for chain / with_timeout / WaitIterator and (b) the
+    future type (asyncio vs concurrent.futures) is a grid dimension for chain source/target, with_timeout input and
+    future_add_done_callback.  Earlier version: missed, its normal form equated the two.
   * with_timeout: remove the deadline timer only when the input succeeded (DESIGN's third mutant)
                                                                         -> NOT caught, by construction: the leftover
     timer finds `result.done()` and does nothing but log a spurious "after timeout" line; no clause of the
@@ -55,7 +62,7 @@ RULE = (
     "exhaustive grid: every outcome vector in {result, exception, cancel}^n x every completion permutation "
     "(n<=3 quick, n<=4 thorough) for multi list/dict, WaitIterator next-loop (eager/lazy) and async-for, "
     "with_timeout x every deadline placement (half-integer steps around the completions, float and "
-    "timedelta), chain_future x {b pending, b done first}; plus Hypothesis cases adding duplicates, "
+    "timedelta), chain_future x {b pending, b done first}, and the same with concurrent.futures.Future as chain source / target / with_timeout input, future_add_done_callback on both types; plus Hypothesis cases adding duplicates, "
     "already-done inputs, concurrent.futures sources, b pre/mid completion, next() interleavings. "
     "non-trivial = >=2 inputs with >=1 non-result outcome, or a deadline strictly between two "
     "completions; distinct = SHA-1 of the case"
@@ -64,7 +71,7 @@ ASSUMPTIONS = [
     "the harness completes every input on the loop thread; after each completion the loop runs to quiescence",
     "completion order among inputs that were already done when WaitIterator was built is unobservable: any order among them is accepted",
     "an input completing at exactly the deadline instant is an EITHER class (input outcome or TimeoutError)",
-    "exceptions are compared by type and args; result values by equality",
+    "exceptions are compared by type and args; result values by equality; cancellation is compared as cancellation (cancelled() true) except for multi, where the statement says 'failed with CancelledError'",
     "WaitIterator given the same future object twice: accepted readings are 'once per distinct future' or 'once per position'",
 ]
 TECHNIQUE = "exhaustive enumeration + property-based testing (Hypothesis) against a reference model on a virtual-time loop"
@@ -131,6 +138,19 @@ class Inputs:
 
 def _j(x):
     return repr(x)
+
+
+def snorm(f):
+    """Strict normal form: "cancelled" only if the future IS cancelled.  A future that merely holds a CancelledError
+    instance as an ordinary exception (e.g. concurrent.futures.CancelledError copied with set_exception) is a
+    failed future, not a cancelled one: chain_future / with_timeout / WaitIterator must copy cancellation *as
+    cancellation* ("copies its source's outcome, including cancellation").  multi keeps the lenient form, the
+    statement defines a cancelled child there as "failed with CancelledError"."""
+    st_ = norm(f)
+    if st_ == ("cancelled",) and not f.cancelled():
+        exc = f.exception()
+        return ("exc", "%s.%s" % (type(exc).__module__, type(exc).__name__), tuple(exc.args))
+    return st_
 
 
 def _check_logs(ctx, logs, case):
@@ -290,7 +310,7 @@ async def _scn_wait(ctx, case, labels):
         for r, ci, i in trace:
             if outs[i] != "r" or r != _val(i) or ci != key(i):
                 ctx.fail("C36.wait.yield_mismatch", {"case": case, "trace": _j(trace)})
-        got = norm(task)
+        got = snorm(task)
         if len(idxs) == n:
             want = [("ok", None)]
         elif len(idxs) < len(pre_group):
@@ -311,7 +331,7 @@ async def _scn_wait(ctx, case, labels):
     def poll():
         o = state["out"]
         if o is not None and o.done():
-            yields.append((wi.current_index, idx_of(wi.current_future), norm(o)))
+            yields.append((wi.current_index, idx_of(wi.current_future), snorm(o)))
             state["out"] = None
 
     def try_next():
@@ -416,7 +436,7 @@ async def _scn_wait_dup(ctx, case, labels):
             inp.retrieve()
             return True
         which = [i for i in range(n) if inp.futs[i] is wi.current_future]
-        yields.append((wi.current_index, which[0] if which else None, norm(f)))
+        yields.append((wi.current_index, which[0] if which else None, snorm(f)))
     if not wi.done():
         ctx.fail("C36.wait.done_false_after_last", {"case": case, "yields": _j(yields)}, sig=SIG)
     used = sorted(set(slots))
@@ -481,7 +501,7 @@ async def _scn_timeout(ctx, case, labels):
     await vtime.advance(to=t0 + max(float(m), d) + 1.0)
     check("end")
     for i in range(n):
-        got = norm(res[i])
+        got = snorm(res[i])
         if got == ("pending",):
             continue
         if tdone[i] < d:
@@ -566,7 +586,7 @@ async def _scn_chain(ctx, case, labels):
             await vtime.settle()
             check("after_%d" % i)
     for i in range(n):
-        got = norm(b[i])
+        got = snorm(b[i])
         if got == ("pending",):
             continue
         want = b_own[i] if b_own[i] is not None else inp.expected(i)
@@ -584,7 +604,47 @@ async def _scn_chain(ctx, case, labels):
     return n >= 2 and any(o != "r" for o in outs)
 
 
-SCN = {"multi": _scn_multi, "wait": _scn_wait, "wait_dup": _scn_wait_dup, "timeout": _scn_timeout, "chain": _scn_chain}
+# --------------------------------------------------------------------------- future_add_done_callback
+async def _scn_fadc(ctx, case, labels):
+    """concurrent.future_add_done_callback on both documented future types: "callback is invoked with one argument,
+    the future; if future is already done, callback is invoked immediately" - and exactly once, whatever the outcome."""
+    from tornado.concurrent import future_add_done_callback
+
+    n, outs, pre, order, kinds = case["nf"], case["out"], case["pre"], case["order"], case["kinds"]
+    inp = Inputs(ctx, n, outs, kinds)
+    calls = [[] for _ in range(n)]
+    for i in order:
+        if pre[i]:
+            inp.complete(i)
+    await vtime.settle()
+    for i in range(n):
+        _guard(ctx, case, "future_add_done_callback", future_add_done_callback, inp.futs[i], calls[i].append)
+        if pre[i] and len(calls[i]) != 1:
+            ctx.fail("C36.fadc.not_immediate_when_done", {"case": case, "input": i, "calls": len(calls[i])})
+        if not pre[i] and calls[i]:
+            ctx.fail("C36.fadc.called_before_done", {"case": case, "input": i})
+    for i in order:
+        if not pre[i]:
+            inp.complete(i)
+            await vtime.settle()
+            if len(calls[i]) != 1:
+                ctx.fail("C36.fadc.not_exactly_once", {"case": case, "input": i, "calls": len(calls[i])},
+                         sig="C36.fadc.not_exactly_once." + ("cancelled_input" if outs[i] == "c" else "other"))
+    await vtime.settle()
+    for i in range(n):
+        if len(calls[i]) != 1 or calls[i][0] is not inp.futs[i]:
+            ctx.fail("C36.fadc.not_exactly_once", {"case": case, "input": i, "calls": len(calls[i])})
+    inp.retrieve()
+    if "cf" in kinds:
+        labels.add("cf_source")
+    if "c" in outs:
+        labels.add("cancelled_input.fadc")
+    if any(pre):
+        labels.add("already_done")
+    return n >= 2 and any(o != "r" for o in outs)
+
+
+SCN = {"fadc": _scn_fadc, "multi": _scn_multi, "wait": _scn_wait, "wait_dup": _scn_wait_dup, "timeout": _scn_timeout, "chain": _scn_chain}
 
 
 def run_case(ctx, case):
@@ -619,11 +679,22 @@ def grid_cases(nmax):
                     yield _base("timeout", n, outs, order, kinds=["aio"] * n, dpos=dpos, td=bool(dpos % 2))
                 yield _base("chain", n, outs, order, akind=["aio"] * n, bkind=["aio"] * n, bst=["p"] * n)
                 yield _base("chain", n, outs, order, akind=["aio"] * n, bkind=["aio"] * n, bst=["mid_c"] * n)
+                if n:
+                    # the second documented future type (concurrent.futures.Future) as source and/or target
+                    alt = [("cf" if i % 2 == 0 else "aio") for i in range(n)]
+                    yield _base("chain", n, outs, order, akind=["cf"] * n, bkind=["aio"] * n, bst=["p"] * n)
+                    yield _base("chain", n, outs, order, akind=["aio"] * n, bkind=["cf"] * n, bst=["p"] * n)
+                    yield _base("chain", n, outs, order, akind=["cf"] * n, bkind=["cf"] * n, bst=["p"] * n)
+                    for dpos in (0, 1, 2 * n + 2):
+                        yield _base("timeout", n, outs, order, kinds=["cf"] * n, dpos=dpos, td=False)
+                    yield _base("timeout", n, outs, order, kinds=alt, dpos=n + 1, td=True)
+                    yield _base("fadc", n, outs, order, kinds=["aio"] * n)
+                    yield _base("fadc", n, outs, order, kinds=["cf"] * n)
 
 
 @st.composite
 def case_s(draw):
-    comb = draw(st.sampled_from(["multi", "multi", "wait", "wait", "wait_dup", "timeout", "timeout", "chain", "chain"]))
+    comb = draw(st.sampled_from(["multi", "multi", "wait", "wait", "wait_dup", "timeout", "timeout", "chain", "chain", "fadc"]))
     n = draw(st.integers(1 if comb == "wait_dup" else 0, 4))
     outs = draw(st.lists(st.sampled_from("rrec"), min_size=n, max_size=n))
     pre = draw(st.lists(st.sampled_from([False, False, True]), min_size=n, max_size=n))
@@ -651,6 +722,8 @@ def case_s(draw):
         c["order"] = list(draw(st.permutations(list(range(len(used))))))
         c["pre"] = [False] * len(used)
         c["complete_first"] = draw(st.booleans())
+    elif comb == "fadc":
+        c["kinds"] = draw(st.lists(kind, min_size=n, max_size=n))
     elif comb == "timeout":
         c["kinds"] = draw(st.lists(kind, min_size=n, max_size=n))
         m = sum(1 for p in pre if not p)
